@@ -126,8 +126,9 @@ def Decoder.readPlain (d : Decoder) (st : DState) (cluster : Nat) (s : Bits) : R
   match d.readSymbol st cluster s with
   | .error e => .error e
   | .ok ((token, st1), s1) =>
-    let (v, s2) := readUint (d.configs.getD cluster default) token s1
-    .ok ((v, st1), s2)
+    match readUint (d.configs.getD cluster default) token s1 with
+    | .error e => .error e
+    | .ok (v, s2) => .ok ((v, st1), s2)
 
 /-- window push + `num_decoded += 1` -/
 def DState.push (st : DState) (r : Nat) : DState :=
@@ -146,20 +147,25 @@ def Decoder.readLz (d : Decoder) (p : Lz77Params) (st : DState) (cluster mult : 
       if token ≥ p.minSymbol then
         if st1.numDecoded = 0 then .error .unexpectedLz77Repeat
         else
-          let (n, s2) := readUint p.lenConf (token - p.minSymbol) s1
+          match readUint p.lenConf (token - p.minSymbol) s1 with
+          | .error e => .error e
+          | .ok (n, s2) =>
           if n + p.minLength ≥ 2 ^ 32 then .error .invalidLz77Symbol
           else
             let lc := d.lzDistCluster
             match d.readSymbol st1 lc s2 with
             | .error e => .error e
             | .ok ((dtok, st2), s3) =>
-              let (dv, s4) := readUint (d.configs.getD lc default) dtok s3
+              match readUint (d.configs.getD lc default) dtok s3 with
+              | .error e => .error e
+              | .ok (dv, s4) =>
               let dist := lzCopyDistance mult dv st2.numDecoded
               let r := st2.hist.getD (dist - 1) 0
               .ok ((r, ({ st2 with numToCopy := n + p.minLength - 1, copyDist := dist }).push r), s4)
       else
-        let (v, s2) := readUint (d.configs.getD cluster default) token s1
-        .ok ((v, st1.push v), s2)
+        match readUint (d.configs.getD cluster default) token s1 with
+        | .error e => .error e
+        | .ok (v, s2) => .ok ((v, st1.push v), s2)
 
 /-- `Decoder::read_varint_with_multiplier_clustered` -/
 def Decoder.readClustered (d : Decoder) (st : DState) (cluster mult : Nat) (s : Bits) :
@@ -208,12 +214,15 @@ def Decoder.readRle (d : Decoder) (p : Lz77Params) (st : DState) (cluster : Nat)
   | .error e => .error e
   | .ok ((token, st1), s1) =>
     if token ≥ p.minSymbol then
-      let (n, s2) := readUint p.lenConf (token - p.minSymbol) s1
+      match readUint p.lenConf (token - p.minSymbol) s1 with
+      | .error e => .error e
+      | .ok (n, s2) =>
       if n + p.minLength ≥ 2 ^ 32 then .error .invalidLz77Symbol
       else .ok ((.rep (n + p.minLength), st1), s2)
     else
-      let (v, s2) := readUint (d.configs.getD cluster default) token s1
-      .ok ((.value v, st1), s2)
+      match readUint (d.configs.getD cluster default) token s1 with
+      | .error e => .error e
+      | .ok (v, s2) => .ok ((.value v, st1), s2)
 
 /-! ## Parsing -/
 
